@@ -13,7 +13,7 @@ pub enum Tier {
     Thorough,
 }
 
-pub const ORD_TYPES: [ElemTy; 6] = [ElemTy::I8, ElemTy::I32, ElemTy::I64, ElemTy::U8, ElemTy::U64, ElemTy::N64];
+pub const ORD_TYPES: [ElemTy; 8] = [ElemTy::I8, ElemTy::I32, ElemTy::I64, ElemTy::U8, ElemTy::U64, ElemTy::N64, ElemTy::Boxed, ElemTy::Fat];
 pub const NAN_TYPES: [ElemTy; 5] = [ElemTy::F64, ElemTy::F32, ElemTy::OptI32, ElemTy::OptU8, ElemTy::OptN64];
 
 pub struct WorldSpec {
@@ -293,13 +293,20 @@ fn new_op(rng: &mut Rng, name: &str) -> Op {
     Op::new(name, Policy::random(rng), Policy::random(rng))
 }
 
-fn lens_for(rng: &mut Rng, nd: usize, lane_max: usize, other_max: usize, allow_zero: bool) -> Vec<usize> {
+fn lens_for(rng: &mut Rng, nd: usize, lane_max: usize, other_max: usize, allow_zero: bool, thorough: bool) -> Vec<usize> {
+    // a square-ish matrix now and then: long lanes *and* a large stride between their elements
+    if nd == 2 && rng.chance(1, 150) {
+        return vec![20 + rng.below(45), 20 + rng.below(45)];
+    }
     // one axis is "the long one", the others stay small
     let long = rng.below(nd);
     let lo = if allow_zero && rng.chance(1, 12) { 0 } else { 1 };
     // a few long lanes in every tier: worst-case chains, round caps and size
     // thresholds inside the library (64, 128, 512, 1024 ...) are only reachable there
-    let long_len = if rng.chance(1, 300) {
+    let long_len = if rng.chance(1, if thorough { 60000 } else { 20000 }) {
+        // a huge lane: recursion budgets, sampling schemes and counters of a few thousand
+        2048 + rng.below(if thorough { 30000 } else { 11000 })
+    } else if rng.chance(1, 300) {
         512 + rng.below(1100)
     } else if rng.chance(1, 40) {
         64 + rng.below(257)
@@ -371,6 +378,8 @@ fn q_ops(rng: &mut Rng, shape: &[usize], ty: ElemTy, style: ValueStyle, max_qs: 
     } else {
         1
     };
+    // huge lanes can cost O(n^2) per call (runs of equal elements): few requests there
+    let cnt = if n >= 2048 { cnt.min(3) } else { cnt };
     op.qs = (0..cnt).map(|_| gen_q(rng, n)).collect();
     if cnt >= 2 && rng.chance(1, 3) {
         // repeat an entry / share a lower-higher index pair
@@ -385,6 +394,10 @@ fn q_ops(rng: &mut Rng, shape: &[usize], ty: ElemTy, style: ValueStyle, max_qs: 
 /// length of a request list for a lane of length n: usually short, sometimes
 /// at least as long as the lane
 fn list_len(rng: &mut Rng, n: usize) -> usize {
+    if n >= 2048 {
+        // huge lanes can cost O(n^2) per call: few requests there
+        return rng.below(4);
+    }
     if n >= 24 && rng.chance(1, 6) {
         n + rng.below(n + 5)
     } else {
@@ -433,7 +446,7 @@ pub fn gen_array_scenario(prop: Prop, rng: &mut Rng, tier: Tier) -> Scenario {
             let ty = if rng.chance(1, 8) { ElemTy::Keyed } else { *rng.pick(&ORD_TYPES) };
             let big = if thorough { if rng.chance(1, 100) { 300 } else { 64 } } else { 12 };
             let nd = if rng.chance(1, 5) { 2 } else { 1 };
-            let lens = lens_for(rng, nd, big, 3, false);
+            let lens = lens_for(rng, nd, big, 3, false, thorough);
             let flag_ = rng.chance(1, 4);
             let (parent_shape, view) = gen_view(rng, &lens, flag_);
             let total: usize = parent_shape.iter().product();
@@ -479,7 +492,7 @@ pub fn gen_array_scenario(prop: Prop, rng: &mut Rng, tier: Tier) -> Scenario {
             let ty = *rng.pick(&ORD_TYPES);
             let big = if thorough { 64 } else { 10 };
             let nd = if rng.chance(1, 6) { 2 } else { 1 };
-            let lens = lens_for(rng, nd, big, 3, true);
+            let lens = lens_for(rng, nd, big, 3, true, thorough);
             let flag_ = rng.chance(1, 3);
             let (parent_shape, view) = gen_view(rng, &lens, flag_);
             let total: usize = parent_shape.iter().product();
@@ -562,7 +575,7 @@ pub fn gen_array_scenario(prop: Prop, rng: &mut Rng, tier: Tier) -> Scenario {
                     }
                     _ => {
                         let mut op = new_op(rng, "grid_index");
-                        let na = 1 + rng.below(3);
+                        let na = if rng.chance(1, 12) { 0 } else { 1 + rng.below(3) };
                         let mut lens = vec![];
                         for _ in 0..na {
                             let ne = rng.below(5) + if rng.chance(1, 5) { 0 } else { 1 };
@@ -573,7 +586,7 @@ pub fn gen_array_scenario(prop: Prop, rng: &mut Rng, tier: Tier) -> Scenario {
                             lens.push(d.len().saturating_sub(1));
                             op.aux.push(edges);
                         }
-                        let bad_axis = rng.below(na);
+                        let bad_axis = if na == 0 { 0 } else { rng.below(na) };
                         for (j, &l) in lens.iter().enumerate() {
                             op.idx.push(if l == 0 || (fault && j == bad_axis) { oor_index(rng, l) } else { rng.below(l) as u64 });
                         }
@@ -591,7 +604,7 @@ pub fn gen_array_scenario(prop: Prop, rng: &mut Rng, tier: Tier) -> Scenario {
                 _ => 1 + rng.weighted(&[4, 4, 2, 1]),
             };
             let flag_ = prop == Prop::C01 && rng.chance(1, 4);
-            let lens = lens_for(rng, nd, lane_max, if nd >= 3 { 3 } else { 4 }, flag_);
+            let lens = lens_for(rng, nd, lane_max, if nd >= 3 { 3 } else { 4 }, flag_, thorough);
             let flag_ = rng.chance(1, 4);
             let (parent_shape, view) = gen_view(rng, &lens, flag_);
             let total: usize = parent_shape.iter().product();
@@ -671,7 +684,7 @@ pub fn gen_array_scenario(prop: Prop, rng: &mut Rng, tier: Tier) -> Scenario {
             let lane_max = if thorough { 40 } else { 12 };
             let nd = 1 + rng.weighted(&[3, 4, 2]);
             let flag_ = rng.chance(1, 10);
-            let lens = lens_for(rng, nd, lane_max, 3, flag_);
+            let lens = lens_for(rng, nd, lane_max, 3, flag_, thorough);
             let flag_ = rng.chance(1, 8);
             let (parent_shape, view) = gen_view(rng, &lens, flag_);
             let total: usize = parent_shape.iter().product();
@@ -736,7 +749,7 @@ pub fn gen_array_scenario(prop: Prop, rng: &mut Rng, tier: Tier) -> Scenario {
             let lane_max = if thorough { 40 } else { 12 };
             let nd = 1 + rng.weighted(&[3, 4, 2]);
             let flag_ = rng.chance(1, 10);
-            let lens = lens_for(rng, nd, lane_max, 3, flag_);
+            let lens = lens_for(rng, nd, lane_max, 3, flag_, thorough);
             let flag_ = rng.chance(1, 5);
             let (parent_shape, view) = gen_view(rng, &lens, flag_);
             let total: usize = parent_shape.iter().product();
@@ -798,13 +811,14 @@ fn gen_nan_mut_op(rng: &mut Rng, shape: &[usize]) -> Option<Op> {
         }
         1 => {
             let axis = rng.below(nd);
-            if shape[axis] == 0 {
-                return None;
-            }
             let mut op = new_op(rng, "quantile_axis_skipnan");
             op.axis = axis;
-            let nn = 1 + rng.below(shape[axis]);
+            let nn = 1 + rng.below(shape[axis].max(1));
             op.qs = vec![gen_q(rng, nn)];
+            if rng.chance(1, 30) {
+                // a request that must be rejected, exactly as the plain operation rejects it
+                op.qs = vec![*rng.pick(&[-0.1, 1.5, 2.0, -1e-300, 1.0 + f64::EPSILON, f64::INFINITY, f64::NEG_INFINITY, -5e-324])];
+            }
             op.strat = gen_strat(rng);
             Some(op)
         }
@@ -831,7 +845,14 @@ pub fn gen_det_bulk_op(rng: &mut Rng) -> Op {
         op.idx = vec![rng.below(11) as u64];
         // aux: data, [scale selector], [element kind: 0 f64, 1 f32], [offset added to every value]
         let offset = if rng.chance(1, 3) { *rng.pick(&[1000i64, 100_000, -7_000, 1 << 20]) } else { 0 };
-        op.aux = vec![(0..n).map(|_| rng.range(-400, 400)).collect(), vec![rng.range(0, 5)], vec![rng.below(2) as i64], vec![offset]];
+        let mut data: Vec<i64> = (0..n).map(|_| rng.range(-400, 400)).collect();
+        if rng.chance(1, 5) {
+            // symmetric data: the mean (and the shifted sum) is exactly zero
+            let half: Vec<i64> = data.iter().take(n / 2 + 1).copied().collect();
+            data = half.iter().flat_map(|&v| [v, -v]).collect();
+        }
+        let offset = if data.len() != n { 0 } else { offset };
+        op.aux = vec![data, vec![rng.range(0, 8)], vec![rng.below(2) as i64], vec![offset]];
         op
     } else {
         let mut op = new_op(rng, "weighted_axis");
@@ -846,7 +867,15 @@ pub fn gen_det_bulk_op(rng: &mut Rng) -> Op {
         }
         let total: i64 = shape.iter().product();
         op.axis = axis;
-        let data: Vec<i64> = (0..total).map(|_| rng.range(-400, 400)).collect();
+        let mut data: Vec<i64> = (0..total).map(|_| rng.range(-400, 400)).collect();
+        if rng.chance(1, 12) {
+            // a few huge values or infinities (see detbulk.rs for the encoding)
+            for v in data.iter_mut() {
+                if rng.chance(1, 4) {
+                    *v = *rng.pick(&[2_000_000i64, -2_000_000, 1_500_000, -1_500_000, 3_999_999]);
+                }
+            }
+        }
         // weights: mostly positive, sometimes with zeros (leading / everywhere) or mixed signs
         let wmode = rng.below(6);
         let weights: Vec<i64> = (0..shape[axis])
@@ -866,18 +895,24 @@ pub fn gen_det_bulk_op(rng: &mut Rng) -> Op {
 
 pub fn gen_hist_scenario(rng: &mut Rng, tier: Tier) -> HistScenario {
     let d = 1 + rng.weighted(&[4, 3, 2]);
-    let elem = if rng.chance(1, 2) { "i32" } else { "N64" };
+    let elem = match rng.below(9) {
+        0..=3 => "i32",
+        4..=7 => "N64",
+        _ => "wide",
+    };
     // value family of this run: small integers, wide (type-wide) values, or many edges
     let family = rng.weighted(&[6, 2, 2]);
     let (vlo, vhi): (i64, i64) = match family {
         1 => {
             if elem == "i32" {
                 (i32::MIN as i64, i32::MAX as i64)
+            } else if elem == "wide" {
+                (-(1 << 50), 1 << 50)
             } else {
                 (-(1 << 39), 1 << 39)
             }
         }
-        2 => (-40, 40),
+        2 => (-150, 150),
         _ => (-6, 6),
     };
     let mut edges = vec![];
@@ -885,7 +920,8 @@ pub fn gen_hist_scenario(rng: &mut Rng, tier: Tier) -> HistScenario {
         let ne = if rng.chance(1, 12) {
             rng.below(2)
         } else if family == 2 {
-            2 + rng.below(if d == 1 { 60 } else { 12 })
+            let cap = if d != 1 { 12 } else if rng.chance(1, 3) { 220 } else { 60 };
+            2 + rng.below(cap)
         } else {
             2 + rng.below(5)
         };
@@ -905,7 +941,10 @@ pub fn gen_hist_scenario(rng: &mut Rng, tier: Tier) -> HistScenario {
     }
     let np = 1 + rng.below(4);
     let max_hist = if tier == Tier::Thorough { 400 } else { 40 };
-    let total = if rng.chance(1, 400) {
+    let total = if rng.chance(1, 20000) {
+        // batch / buffer sizes of 2^14 and beyond
+        16500 + rng.below(9000)
+    } else if rng.chance(1, 400) {
         // a very long history: batch / buffer thresholds inside the library
         2100 + rng.below(3000)
     } else if rng.chance(1, 60) {
